@@ -6,6 +6,11 @@ impl = subprocess.run([os.path.join(V, "bin/xjscheck"), "-list"], capture_output
 
 WHOLE = "The behavioural statement taken whole is NOT decided (it quantifies over runtime values / an external JavaScript semantics); "
 checks = {
+ "C01": dict(
+   technique="path enumeration of every parse method over its typed syntax tree (tokens consumed, fields filled, loops unrolled twice) cross-checked against the printer event trees (sibling cross-check: printer vs parser); FIRST/LAST lexeme fixpoint over the printers with maximal-munch re-lexing of every adjacent pair, the writer's separator guard found by SSA shape and folded per byte pair; guard evaluation over all level orderings; path rule on the semicolon writer",
+   text=WHOLE + "decided is the syntactic chain the behaviour rests on (the source is its own reference): for every success path of every parse method, the printer of the node that path builds writes exactly the tokens the path consumed, in that order, fixed terminals by type and open-class text from the very token; no two lexemes the printers can write back to back fuse into another token in compact or pretty mode unless the writer's separator guard, folded on that pair, separates them (the '-' '-x' defect found here is repaired by a fix: commit); operand parentheses are decided by level comparisons evaluated over all orderings; the semicolon writer emits ';' whenever pretty printing is off. Literal delimiter safety is decided under C07, the pretty post-pass under C06. Evaluation under a JavaScript engine is not decided.",
+   ref="DESIGN.md §3 C01",
+   note="Trusted: go/types, go/ssa; the structured-code path enumerator (anything it does not understand fails closed); the lexeme table extracted from the lexer is the re-lexing oracle (plus JavaScript's comment openers as fusion hazards)."),
  "C16": dict(
    technique="SSA dataflow: push/pop typestate balance over every path incl. defer/rundefers; who-may-write on the stack field; dominance of pushes over body/statement parses",
    text=WHOLE + "decided, on every path of the current source, is the stack discipline the property rests on: only constructor/push/pop write the context stack; push/pop are exact; every pushing function returns balanced on every path (so any parse, valid or malformed, ends at the constructor's [Global] stack); the function/block contexts are pushed exactly by the function-body and block parsers, after '{' and before the body; CurrentContext/IsInFunction read last element / whole stack. Necessary conditions, each broken by a realistic edit the tests do not see (they never query the context).",
@@ -17,10 +22,10 @@ checks = {
    ref="DESIGN.md §3 C14",
    note="Trusted: go/types, go/ssa, VTA over CHA (sound without unsafe/reflect, which R14.8 checks), the propagation's treatment of heap-stored references (a retained reference is itself reported). User interceptors and sharing one parser between goroutines are outside the claim."),
  "C03": dict(
-   technique="table agreement by SSA constant folding of the printer's precedence function against the parser's table; parenthesisation guards evaluated over the finite set of level orderings; node levels vs parser production sites",
-   text=WHOLE + "decided is the printer's own precedence knowledge, which only programmatic trees exercise and no test reaches: the printer-side precedence function equals the parser's binding-power table for every token constant; each expression node reports the level at which the parser produces it; every operand of an operator printer is parenthesised by a pure level comparison that is exhaustively evaluated over all orderings against the associativity-aware requirement, balanced and enclosing the operand. Round-trip shape equality itself is not decided.",
+   technique="table agreement by SSA constant folding of the printer's precedence function against the parser's table; parenthesisation guards evaluated over the finite set of level orderings; node levels vs parser production sites; FIRST/LAST lexeme fixpoint over all node types that can fill each slot with maximal-munch re-lexing of adjacent pairs and the separator guard folded per pair; parse-path enumeration vs printer event trees",
+   text=WHOLE + "decided is the printer's own precedence knowledge, which only programmatic trees exercise and no test reaches: the printer-side precedence function equals the parser's binding-power table for every token constant; each expression node reports the level at which the parser produces it; every operand of an operator printer is parenthesised by a pure level comparison that is exhaustively evaluated over all orderings against the associativity-aware requirement, balanced and enclosing the operand; no two lexemes that can be written next to each other (over every node type that can fill an operand slot) fuse into another token unless the writer's separator guard separates that pair; the printer writes the tokens of every parse path in the order consumed. Round-trip shape equality itself is not decided.",
    ref="DESIGN.md §3 C03",
-   note="Trusted: go/types, go/ssa, the folder (comparisons/constant returns only; anything else is reported unresolved). Token fusion (R3.4) and token order (R3.5) are reported under this id once armed."),
+   note="Trusted: go/types, go/ssa, the folder (comparisons/constant returns only; anything else is reported unresolved)."),
  "C13": dict(
    technique="SSA non-interference: flag anchored by option-flow from the builder setter; every read must be a branch condition whose flag-false edge records an error before any return/advance (tolerant), or gates only the documented '(' / '[' after-newline cut (smart semicolons)",
    text=WHOLE + "decided is a non-interference argument over every path of package parser: the two mode flags flow uncrossed from their setters into one parser field each; the tolerant flag is only ever a branch condition whose false edge records an error first, so a parse that records no error took no flag-dependent branch (strict = tolerant on strict-accepted programs); the smart-semicolon flag gates only cuts requiring the after-newline flag and a peek type in {(, [}, returning the left operand and consuming nothing. The positive clause (tolerant keeps every complete statement) and tree equality as data are not decided.",
@@ -28,12 +33,12 @@ checks = {
    note="Trusted: go/types, go/ssa, recognition of the condition atoms (peek/current token type tests, after-newline flag, parser bool fields); unknown shapes fail closed."),
  "C11": dict(
    technique="SSA path rules with verified interprocedural summaries (may-return-nil, nil-implies-error, false-implies-error); who-may-write / who-may-construct rules for the error list",
-   text=WHOLE + "decided is the error-contract discipline on every path of package parser: no may-be-nil node pointer is converted to an ast interface without a nil test (the typed-nil defect this rule found is repaired by a fix: commit); every nil-valued return of a node is preceded by a recorded error (summaries verified bottom-up, not assumed); ParseProgram returns an error exactly on the non-empty-list branch and never a nil program; only the constructor and the single error constructor write the error list; error ranges are {tok.Start, tok.End} of the parser's current/peek token. Termination and panic-freedom for all inputs are not claimed beyond these obligations.",
+   text=WHOLE + "decided is the error-contract discipline on every path of package parser: no may-be-nil node pointer is converted to an ast interface without a nil test (the typed-nil defect this rule found is repaired by a fix: commit); every nil-valued return of a node is preceded by a recorded error (summaries verified bottom-up, not assumed); ParseProgram returns an error exactly on the non-empty-list branch and never a nil program; only the constructor and the single error constructor write the error list; error ranges are {tok.Start, tok.End} of the parser's current/peek token; every child a printer dereferences without a nil test is filled by a sub-parse on every success path of the method that builds the node. Termination and panic-freedom for all inputs are not claimed beyond these obligations.",
    ref="DESIGN.md §3 C11",
-   note="Trusted: go/types, go/ssa. Plugin-supplied function values are assumed non-nil and outside the program. R11.3/R11.5/R11.6 are reported under this id once armed."),
+   note="Trusted: go/types, go/ssa. Plugin-supplied function values are assumed non-nil and outside the program. R11.5/R11.6 (panic obligations outside the lexer, termination) are not armed and not claimed."),
  "C12": dict(
-   technique="SSA path enumeration with condition atoms over the separator check, the block parser and the prefix dispatcher (accept-path justification, must-pass-through)",
-   text=WHOLE + "decided are the detectors strict mode relies on, for every path: the separator check accepts only on ';' consumed, '}'/EOF at peek, peek after a line break, or tolerant mode, and every semicolon-terminated statement parser passes it before returning its node; the block parser never returns at end of input without '}' unless an error is recorded or tolerant mode is on; the prefix dispatcher records an error for a token without entry. The corruption quantifier, the reference-parser filter and error positions are not decided.",
+   technique="SSA path enumeration with condition atoms over the separator check, the block parser and the prefix dispatcher (accept-path justification, must-pass-through); parse-path enumeration cross-checked against printer terminals (checked-consumption rule); byte-set facts at the scanners' exits",
+   text=WHOLE + "decided are the detectors strict mode relies on, for every path: the separator check accepts only on ';' consumed, '}'/EOF at peek, peek after a line break, or tolerant mode, and every semicolon-terminated statement parser passes it before returning its node; the block parser never returns at end of input without '}' unless an error is recorded or tolerant mode is on; the prefix dispatcher records an error for a token without entry; every fixed terminal a node prints is tested on input by the path that builds the node, and the program's statement loop stops only at a tested end of input; unterminated string/backtick literals are observable. The corruption quantifier, the reference-parser filter and error positions are not decided.",
    ref="DESIGN.md §3 C12",
    note="Trusted: go/types, go/ssa; acyclic path enumeration (facts at a loop exit do not depend on the loop body in the analysed functions; a back edge ends a path)."),
  "C02": dict(
